@@ -363,6 +363,8 @@ def _bytes_ctor(it, args):
     t = ops.bytes_term(it, v)
     if t is not None:
         return t
+    if isinstance(v, Ref) and isinstance(it.ctx.obj(v), ops.HSeq):
+        return it.ctx.obj(v).term
     if isinstance(v, str):
         raise PyRaise("TypeError", "string argument without an encoding")
     # iterable of ints
